@@ -1184,6 +1184,11 @@ def undefined_case(ctx, k, cid):
                 return
         A, dec = rule(np.where(fin, sim, -1.0), t, W)
         A &= fin
+        # (the similarity matrix is a single-precision array: an entry that
+        #  IS the threshold at that resolution - 0.3 stored as
+        #  0.30000001192... against a threshold of 0.3 - is not decided)
+        with np.errstate(invalid="ignore"):
+            dec = dec & (sim.astype(np.float32) != np.float32(t))
         got = np.asarray(net.adjacency) != 0
         ctx.evals()
         ctx.count("undefined_similarity_states")
